@@ -160,6 +160,38 @@ def annexb_tail(rng, codec, f):
     return f
 
 
+def nal_units_of(b):
+    """NAL units of an Annex B byte string (3- or 4-byte start codes), without trailing zero bytes"""
+    out, i, n, start = [], 0, len(b), None
+    while i + 3 <= n:
+        if b[i] == 0 and b[i + 1] == 0 and b[i + 2] == 1:
+            if start is not None:
+                out.append(b[start:i].rstrip(b"\x00"))
+            start = i + 3
+            i += 3
+        else:
+            i += 1
+    if start is not None:
+        out.append(b[start:])
+    return [u for u in out if u]
+
+
+def repeat_headers(rng, codec, first, key):
+    """a later H.264 / H.265 frame that repeats, byte for byte, parameter sets of the first key frame in front of
+    its own slice - what encoders that resend their headers with every GOP (or every frame) produce"""
+    units = nal_units_of(first)
+    if codec == "h264":
+        params = [u for u in units if u[0] & 0x1F in (7, 8)]
+        slice_ = bytes([0x65 if key else 0x41]) + nal_body(rng, rng.randrange(1, 40))
+    else:
+        params = [u for u in units if (u[0] >> 1) & 0x3F in (32, 33, 34)]
+        slice_ = bytes([(19 if key else 1) << 1, 0x01]) + nal_body(rng, rng.randrange(1, 40))
+    if params and rng.random() < 0.3:
+        params = rng.sample(params, rng.randrange(1, len(params) + 1))      # only some of them
+    sc = lambda: rng.choice([SC3, SC4])
+    return b"".join(sc() + u for u in params + [slice_])
+
+
 def key_frame(rng, codec):
     return annexb_tail(rng, codec, {"h264": h264_key, "h265": h265_key, "av1": av1_key, "vp9": vp9_key}[codec](rng))
 
@@ -204,7 +236,9 @@ def cfg_str(codec="h264", w=640, h=480, fps=30.0, audio="none", rate=48000, ch=2
 def rand_metadata(rng):
     if rng.random() < 0.5:
         return dict(md=0)
-    title = rng.choice([None, b"", b"T", "Tïtle é中".encode(), bytes(rng.choice(b"abcdefgh ") for _ in range(rng.randrange(1, 60)))])
+    title = rng.choice([None, b"", b"T", "Tïtle é中".encode(), bytes(rng.choice(b"abcdefgh ") for _ in range(rng.randrange(1, 60))),
+                        # characters a tidy-up might strip or stop at: NUL, blanks, line ends, at either end or inside
+                        rng.choice([b"Clip\x00", b"\x00", b"\x00\x00", b"A\x00B", b" lead", b"trail ", b"  ", b"line\n", b"\ttab", b"\r\n"])])
     # incl. years of five and more digits (the date text is then longer than 20 bytes)
     ctime = rng.choice([None, 0, 86399, 951782400, 1700000000, 4102444800, rng.randrange(0, 253402300800),
                         253402300800, rng.randrange(253402300800, 10 ** 13), 10 ** 15, 2 ** 63, 2 ** 64 - 1])
@@ -369,6 +403,11 @@ def gen_history(rng, dist, codec=None, audio=None, fast=None, md=None, nv=None, 
         data = key_frame(rng, codec) if i == 0 else (key_frame(rng, codec) if key and rng.random() < 0.5 else delta_frame(rng, codec))
         if i > 0 and key and codec == "h265" and rng.random() < 0.6:
             data = h265_irap(rng)
+        if i == 0:
+            first_key = data
+        elif codec in ("h264", "h265") and rng.random() < (0.45 if key else 0.12):
+            data = repeat_headers(rng, codec, first_key, key)
+            dist["later_frame_repeats_first_parameter_sets"] += 1
         if reorder or rng.random() < 0.3:
             vops.append(("v", dts[i], "wvd %s %s %s %d" % (f64bits(pts[i]), f64bits(dts[i]), hx(data), 1 if key else 0)))
         else:
@@ -738,7 +777,7 @@ def f64_palette_cases(rng, tier, dist):
             a = bits_f64("%016x" % rng.randrange(0x3E00000000000000, 0x40F0000000000000))      # 1e-9 .. 65536 s, random mantissa
         elif k < 0.5:
             tick = rng.randrange(0, 2 ** 32)
-            a = (tick + rng.choice([0.5, 0.49999999999, 0.50000000001, 0.0, 0.25])) / 90000.0
+            a = (tick + rng.choice([0.5, 0.49999999999, 0.50000000001, 0.0, 0.25, 0.49998, 0.50002, 0.499999, 0.500001])) / 90000.0
         elif k < 0.6:
             a = bits_f64("%016x" % rng.randrange(0, 0x0010000000000000))                        # subnormal
         elif k < 0.7:
@@ -831,7 +870,9 @@ def gen_C18(rng, tier, dist):
     out = []
     n = 300 if tier == "quick" else 20000
     for _ in range(n):
-        title = rng.choice([None, b"", b"x", "Tïtle é中 \U0001F600".encode(), bytes(rng.choice(b"abc XYZ") for _ in range(rng.choice([5, 100, 5000])))])
+        title = rng.choice([None, b"", b"x", "Tïtle é中 \U0001F600".encode(), bytes(rng.choice(b"abc XYZ") for _ in range(rng.choice([5, 100, 5000]))),
+                            rng.choice([b"Clip\x00", b"\x00", b"\x00\x00", b"A\x00B", b" lead", b"trail ", b"  ", b"line\n", b"\ttab", b"\r\n",
+                                        "é\x00".encode(), b"\x00tail\x00\x00"])])
         ctime = rng.choice([None, 0, 59, 86399, 86400, 951782399, 951782400, 951868800, 1709164800, 4107542400, 253402300799,
                             rng.randrange(0, 253402300800), rng.randrange(0, 4102444800),
                             253402300800, rng.randrange(253402300800, 10 ** 13), 10 ** 15, 2 ** 64 - 1,
